@@ -71,7 +71,8 @@ def exhaustive_pure():
              ('update', dict(reason=causes.Reason.UPDATE, initial=None, deleted=None, requires_finalizer=None)),
              ('delete', dict(reason=causes.Reason.DELETE, initial=None, deleted=None, requires_finalizer=True)),
              ('resume', dict(reason=None, initial=True, deleted=None, requires_finalizer=None)),
-             ('resume+deleted', dict(reason=None, initial=True, deleted=True, requires_finalizer=None))]
+             ('resume+deleted', dict(reason=None, initial=True, deleted=True, requires_finalizer=None)),
+             ('resume+notdeleted', dict(reason=None, initial=True, deleted=False, requires_finalizer=None))]     # the explicit opt-out
     for name, kw in kinds:
         reg.append(khandlers.ChangingHandler(
             fn=fn, id=name, param=None, errors=None, timeout=None, retries=None, backoff=None,
